@@ -780,8 +780,14 @@ class BlobStorage(BlobStorageMixin):
         # We need to override the base storage's abort instead of
         # providing an _abort method because methods found on the proxied
         # object aren't rebound to the proxy
+        # A call with a transaction other than the one being committed is
+        # ignored by the storage; the dirty blob files are not its to remove.
+        tpc_transaction = getattr(self.__storage, 'tpc_transaction', None)
+        foreign = (tpc_transaction is not None and arg
+                   and tpc_transaction() is not arg[0])
         self.__storage.tpc_abort(*arg, **kw)
-        self._blob_tpc_abort()
+        if not foreign:
+            self._blob_tpc_abort()
 
     def _packUndoing(self, packtime, referencesf):
         # Walk over all existing revisions of all blob files and check
